@@ -48,7 +48,12 @@ def run(src, fn_name, args, check_pre=True, verbose=True):
     if not ret:
         if verbose:
             print("replay: REPRODUCED (harness returned %r for %r)" % (ret, args))
-            expl = getattr(mod, "_EXPLAIN", None)
+            try:
+                import hlib.common as _hc
+
+                expl = _hc._EXPLAIN
+            except Exception:  # noqa
+                expl = None
             if expl:
                 print("replay: detail:", expl[-1])
         return 1
